@@ -53,6 +53,7 @@ fn main() {
         "mania-record" => maniarec::main(rest),
         "taiko-replay" => taiko::replay_main(rest),
         "taiko-record" => taiko::record_main(rest),
+        "taikocolour-replay" => taiko::colour_replay_main(rest),
         "mods-replay" => modsrep::main(rest),
         "convert-replay" => convert::replay_main(rest),
         "convert-record" => convert::record_main(rest),
